@@ -35,6 +35,13 @@ func genC11(r *Rand) *VariantCase {
 		use = append(use, PStmt{K: "raw", Text: fmt.Sprintf("\tMOV EAX,[EBX+ECX*%s]", sc2N)}, PStmt{K: "raw", Text: fmt.Sprintf("\tMOV [ESI+EDI*%s+%s],EDX", scN, smallN)},
 			PStmt{K: "raw", Text: fmt.Sprintf("\tMOV ECX,[EDX*%s+0x100]", sc2N)}, PStmt{K: "raw", Text: fmt.Sprintf("\tIN AL,%s", smallN)}, PStmt{K: "raw", Text: fmt.Sprintf("\tOUT %s+1,AL", smallN)},
 			PStmt{K: "raw", Text: fmt.Sprintf("\tINT %s", smallN)}, PStmt{K: "raw", Text: fmt.Sprintf("\tSHL BX,%s", smallN)}, PStmt{K: "raw", Text: fmt.Sprintf("\tADD BYTE [%s+%s],%s", map[int]string{16: "BX", 32: "EBX"}[mode], smallN, scN)})
+		// a numeric branch target given by a name (bare, and inside an expression), and a far jump through two names
+		tgtN, selN := fmt.Sprintf("K%d", len(defs)+3), fmt.Sprintf("K%d", len(defs)+4)
+		tgt := int64(Pick(r, []int{0x7c40, 0x120, 0x8000}))
+		extra = append(extra, equDef{Name: tgtN, E: &Expr{Val: tgt, Hex: true}, Val: tgt}, equDef{Name: selN, E: &Expr{Val: 16}, Val: 16})
+		eq = append(eq, PStmt{K: "equ", Label: tgtN, Text: fmt.Sprintf("0x%x", tgt), Tag: "EQU"}, PStmt{K: "equ", Label: selN, Text: "16", Tag: "EQU"})
+		use = append(use, PStmt{K: "raw", Text: fmt.Sprintf("\t%s %s", Pick(r, []string{"JMP", "JNZ", "CALL", "JC"}), tgtN)}, PStmt{K: "raw", Text: fmt.Sprintf("\tJE %s+4", tgtN)},
+			PStmt{K: "raw", Text: fmt.Sprintf("\tJMP DWORD %s:%s", selN, tgtN)}, PStmt{K: "raw", Text: fmt.Sprintf("\tPUSH %s", smallN)})
 		Shuffle(r, use)
 		use = use[:r.Range(2, len(use))]
 		// the definitions go in front (after ORG / BITS), the uses before the final label
